@@ -153,10 +153,15 @@ class PureEval:
 		return self.attr(obj, node.attr)
 
 	def attr(self, obj, a):
+		if isinstance(obj, SMaybe):
+			obj = obj.ref      # meaningful only where the clause has established that it is not None
 		obj = self.deref(obj)
 		if isinstance(obj, Record):
 			if a in obj.fields:
-				return self.deref(obj.fields[a])
+				v = obj.fields[a]
+				if isinstance(v, Ref) and isinstance(self.deref(v), Record):
+					return v        # keep object identity of nested records
+				return self.deref(v)
 			raise Unsupported(f'record has no field {a}')
 		if isinstance(obj, SObj):
 			return obj.getattr(a)
